@@ -130,6 +130,15 @@ def rule_d1(ck, prog, S):
         if any(e[0] == "store" and C.store_target(e[1]).get("path") == idx for e in after):
             problems.append("after a match the index is advanced before returning")
             break
+        returns_entry = f.ret.get("tk") == "ptr"
+        if returns_entry:
+            # the lookup hands the matched entry back (the caller stores it): the pointer returned is that entry
+            rexp = ps.ret_node.child(0).strip_all_casts() if ps.ret_node is not None and ps.ret_node.ch else None
+            got = obj_of_pointer(rexp.get("path") or rexp.src) if rexp is not None else None
+            if entry is None or got != entry:
+                problems.append("a matching path returns `%s`, not the entry whose pattern matched" % (rexp.src if rexp is not None else None))
+                break
+            continue
         if ps.ret is None or ps.ret.truth() is not True:
             problems.append("a matching path returns %s" % ps.ret)
             break
@@ -144,7 +153,21 @@ def rule_d1(ck, prog, S):
             problems.append("param_list.cmd is set to `%s`, not to the entry whose pattern matched" % rhs.src)
             break
     miss = [ps for ps in sums if not any(a is call and pol is True for a, pol in ps.facts if not isinstance(pol, tuple))]
-    if any(ps.ret is None or ps.ret.truth() is not False for ps in miss):
+    if f.ret.get("tk") == "ptr":
+        if any(ps.ret_node is None or not ps.ret_node.ch or not (C.is_null(ps.ret_node.child(0)) or C.const_of(ps.ret_node.child(0)) == 0) for ps in miss):
+            problems.append("a path without any match does not return NULL")
+        # ... and the caller stores exactly that result as the matched entry on the found edge
+        par_ = prog.fn("SCPI_Parse")
+        if par_ is not None:
+            fc_ = list(par_.calls(f.name))
+            pgp = S.pg(par_)
+            if len(fc_) == 1:
+                td_, fd_, hold_ = K.call_truth_edges(par_, pgp, fc_[0])
+                sts_ = [n_ for n_, t_ in C.stores(par_) if X.norm(t_.get("path") or "").endswith("param_list.cmd") and n_.get("op") == "=" and
+                        (n_.child(1).strip_all_casts() is fc_[0] or n_.child(1).strip_all_casts().get("path") in hold_)]
+                if not sts_:
+                    problems.append("the caller does not store the entry returned by the lookup in param_list.cmd")
+    elif any(ps.ret is None or ps.ret.truth() is not False for ps in miss):
         problems.append("a path without any match does not return FALSE")
     # every entry is handed to the matcher: no cycle of the scan gets round the matchCommand call (a pre-filter on the first
     # letter, a cache, ... decides 'no match' on its own and is wrong for patterns it does not understand)
@@ -214,14 +237,7 @@ def rule_d2_d5(ck, prog, S):
         ck.violated("C02-D2", st, K.loc(parse, pc), "a unit can be dispatched twice")
     else:
         # only on the found edge: unreachable from the false edge of findCommandHeader within the unit
-        false_dst = []
-        true_dst = []
-        for p_, es in pg.out.items():
-            for e in es:
-                if e.kind == "edge" and e.label[0] in ("true", "false") and e.label[1] is not None:
-                    for atom, pol in C.cond_facts(e.label[1], e.label[0] == "true"):
-                        if atom is fch[0]:
-                            (true_dst if pol else false_dst).append(e.dst)
+        true_dst, false_dst, _h = K.call_truth_edges(parse, pg, fch[0])
         r2 = pg.reachable(false_dst, blocked_edge=lambda e: e.kind == "elem" and e.node in det)
         r3 = pg.reachable([pg.after(det[0])], blocked_edge=lambda e: e.kind == "elem" and e.node is fch[0])
         if not false_dst or not true_dst:
@@ -373,13 +389,7 @@ def rule_d3_d4(ck, prog, S):
             ck.violated("C02-D4", st, K.loc(parse), "expected exactly one -113 site in SCPI_Parse, found %d" % len(sites))
     elif fch:
         p, real, host = sites[0]
-        false_dst, true_dst = [], []
-        for p_, es in pg.out.items():
-            for e in es:
-                if e.kind == "edge" and e.label[0] in ("true", "false") and e.label[1] is not None:
-                    for atom, pol in C.cond_facts(e.label[1], e.label[0] == "true"):
-                        if atom is fch[0]:
-                            (true_dst if pol else false_dst).append(e.dst)
+        true_dst, false_dst, _h = K.call_truth_edges(parse, pg, fch[0])
         r_nf = pg.reachable(false_dst, blocked_edge=lambda e: e.kind == "elem" and (e.node is p))
         r_f = pg.reachable(true_dst, blocked_edge=lambda e: e.kind == "elem" and e.node in det)
         in_loop = any(parse.where[p.id][0].id in body and parse.where[fch[0].id][0].id not in body for h, body in C.loops(parse))
